@@ -213,23 +213,25 @@ func genC23(rt *rapid.T) c23Case {
 		c.Mems = []c23Mem{genC23Mem(rt, c.InGran), genC23Mem(rt, c.OutGran)}
 	}
 
-	// buffer size: {4..256} (powers of two or any integer) or a few larger
-	// ones, raised to the smallest size with which every direction can make
-	// progress (below it the mover stalls forever: see the report / known.d).
-	switch rapid.IntRange(0, 3).Draw(rt, "bufclass") {
+	// buffer size: {4..256} (powers of two or any integer), a few larger ones,
+	// exactly the smallest size with which a write window fills, or below it
+	// (the builder accepts any size; the mover must still finish every move).
+	switch rapid.IntRange(0, 4).Draw(rt, "bufclass") {
 	case 0:
 		c.BufSize = rapid.SampledFrom(pow2Grans).Draw(rt, "buf")
 	case 1:
 		c.BufSize = uint64(rapid.IntRange(4, 256).Draw(rt, "buf"))
 	case 2:
 		c.BufSize = rapid.SampledFrom([]uint64{512, 1024, 4096}).Draw(rt, "buf")
-	default: // exactly the minimum
+	case 3: // exactly the minimum
 		c.BufSize = 0
-	}
-	for _, p := range [][2]uint64{{c.InGran, c.OutGran}, {c.OutGran, c.InGran}} {
-		if mb := minBuffer(p[0], p[1]); c.BufSize < mb {
-			c.BufSize = mb
+		for _, p := range [][2]uint64{{c.InGran, c.OutGran}, {c.OutGran, c.InGran}} {
+			if mb := minBuffer(p[0], p[1]); c.BufSize < mb {
+				c.BufSize = mb
+			}
 		}
+	default: // anything from 0 up, usually below the minimum
+		c.BufSize = uint64(rapid.IntRange(0, 16).Draw(rt, "smallbuf"))
 	}
 
 	n := rapid.IntRange(1, 5).Draw(rt, "moves")
@@ -250,20 +252,14 @@ func genC23Move(rt *rapid.T, c *c23Case) c23Move {
 	}
 	s, d := c.gran(m.SrcSide), c.gran(m.DstSide)
 
-	// size: a multiple of both granularities. Anything else is a listed
-	// finding (the mover writes whole destination chunks for as long as the
-	// buffer holds data, so it writes past the destination range or never
-	// finishes); a drawn non-multiple is rounded up and counted as steered.
+	// size: any byte count (2 in 10), otherwise a multiple of both
+	// granularities.
 	l := s / gcd(s, d) * d
 	switch rapid.IntRange(0, 9).Draw(rt, "sizeclass") {
 	case 0:
 		m.Size = 0
 	case 1, 2: // arbitrary byte count
 		m.Size = uint64(rapid.IntRange(1, 2048).Draw(rt, "size"))
-		if m.Size%l != 0 {
-			m.Size = roundUp(m.Size, l)
-			c.Steered++
-		}
 	case 4: // around the buffer size
 		m.Size = roundUp(c.BufSize, l) + uint64(rapid.IntRange(0, 2).Draw(rt, "sizeb"))*l
 	default:
@@ -717,7 +713,10 @@ func c23Exec(c c23Case, rec *fpRec) (sig, msg string, st c23Stats) {
 
 	for _, mv := range c.Moves {
 		s, d := c.gran(mv.SrcSide), c.gran(mv.DstSide)
-		w := int((mv.Size + c.BufSize - 1) / c.BufSize)
+		w := int(mv.Size)
+		if c.BufSize > 0 {
+			w = int((mv.Size + c.BufSize - 1) / c.BufSize)
+		}
 		if w > st.windows {
 			st.windows = w
 		}
@@ -796,16 +795,13 @@ func TestC23(t *testing.T) {
 			"a mem.SinglePortMapper or 2-4 memory modules behind a mem.InterleavedAddressPortMapper (interleaving size = the side's granularity (lcm of both when one memory serves both) x {1,2,3,4,5,8,16}, <= 4096), "+
 			"every module an ideal controller with its own storage over the flat address range, pre-filled with its own generated bytes (latency 0-25, width 1-4, own clocks); "+
 			"the side's reference content is, per address, the byte held by the module that owns the address; inside/outside granularity from {4..256 powers of two} "+
-			"(1 in 6: 12,20,24,48,96,100,192); BufferSize from {4..256 powers of two | any 4..256 | 512,1024,4096 | the minimum}, raised to the smallest size that lets a write "+
-			"window fill; port buffers 1-8; 1-5 moves from one scripted requester (gaps, optional wait-for-all-acks barrier, ack receive stalls): every side pair, addresses aligned "+
-			"to the side's granularity (start 0 / end of storage / anywhere), size 0, multiples of both granularities, multiples of the destination granularity only, around the buffer size "+
-			"(<= 2304 B); source never overlaps the destination of the same move or of an earlier move that can still be running; sizes not a multiple of the destination "+
-			"granularity are the listed finding and are rounded up (counted as excluded). Oracle at every acknowledgement (Top send hook): the storages of all modules of both sides, read in full (including the addresses a module does not own), equal the model in "+
+			"(1 in 6: 12,20,24,48,96,100,192); BufferSize from {4..256 powers of two | any 4..256 | 512,1024,4096 | the smallest size that lets a write window fill | 0..16 (usually below it)}; port buffers 1-8; 1-5 moves from one scripted requester (gaps, optional wait-for-all-acks barrier, ack receive stalls): every side pair, addresses aligned "+
+			"to the side's granularity (start 0 / end of storage / anywhere), size 0, any byte count (not a multiple of either granularity), multiples of both granularities, around the buffer size "+
+			"(<= 2304 B); source never overlaps the destination of the same move or of an earlier move that can still be running. Oracle at every acknowledgement (Top send hook): the storages of all modules of both sides, read in full (including the addresses a module does not own), equal the model in "+
 			"which exactly the destination range, in the owning modules, was replaced by the flat source snapshot taken at issue; RspTo/Dst/ack order; no request taken and no memory access sent between an "+
 			"acknowledgement and the next take; everything acknowledged and idle when Run returns. Non-trivial: some move has different source/destination granularities and is larger than BufferSize")
 	defer s.End()
 	s.Assume("ideal memory controllers and mem.Storage (inside capacity) are trusted; acknowledgement time = Send on the mover's Top port; interleaved sides are wired as in mem/acceptancetests/pagemigration and the datamover's own tests: every module stores at the flat address (no address converter), the interleaving size is a multiple of the side's granularity")
-	s.Assume("BufferSize below minBuffer(srcGran,dstGran) and sizes that are not multiples of the destination granularity are outside the main generator (dedicated TestC23Known_* reproductions)")
 
 	run := func(f kit.Failer, c c23Case) {
 		s.Excluded(c.Steered)
@@ -844,6 +840,17 @@ func TestC23(t *testing.T) {
 		add(st.bothCross, "move-crosses-boundaries-on-both-sides")
 		add(len(c.Moves) >= 3, "moves>=3")
 		add(c.BufSize < c.InGran || c.BufSize < c.OutGran, "buffer<granularity")
+		belowWindow, offDst, offSrc := false, false, false
+		for _, p := range [][2]uint64{{c.InGran, c.OutGran}, {c.OutGran, c.InGran}} {
+			belowWindow = belowWindow || c.BufSize < minBuffer(p[0], p[1])
+		}
+		for _, mv := range c.Moves {
+			offDst = offDst || mv.Size%c.gran(mv.DstSide) != 0
+			offSrc = offSrc || mv.Size%c.gran(mv.SrcSide) != 0
+		}
+		add(belowWindow, "buffer-below-write-window")
+		add(offDst, "size-not-multiple-of-dst-granularity")
+		add(offSrc, "size-not-multiple-of-src-granularity")
 		s.Note(c, st.multiWindow, cls...)
 	}
 
@@ -951,7 +958,8 @@ func c23Known(t *testing.T, name, sig string, c c23Case) {
 	case sig:
 		s.KnownStillFails(t, c, sig, msg)
 	case "":
-		fmt.Printf("KNOWN-FINDING-GONE: property=C23 sig=%s no longer reproduces on %+v\n", sig, c)
+		// repaired (see KNOWN_FINDINGS.txt): kept as a regression input
+		s.Note(c, true, "regression:"+sig)
 	default:
 		s.Fail(t, c, got, "%s", msg)
 	}
